@@ -9,7 +9,7 @@ EXPLANATION = ("Phaseless propagators (restricted, unrestricted): PROVED in Floa
                "fully constrained walker in the FAST propagators), an unconfirmed one is reported NOT-DECIDED (neither proved nor a violation). Because known findings are "
                "suppressed the claim level is 'other', not 'proof'.")
 LEVEL_TEXT = EXPLANATION
-LEVEL_NOTE = ("Stated lemmas: a sum of N doubles in [0,100] is finite, >= each term; log of a positive finite double is finite with |log| <= 800. Havoc constraints: |z| not negative, "
+LEVEL_NOTE = ("N/D: propagator_cpmc_slow, propagator_cpmc_nn, propagator_cpmc_nn_slow (not analysed). Stated lemmas: a sum of N doubles in [0,100] is finite, >= each term; log of a positive finite double is finite with |log| <= 800. Havoc constraints: |z| not negative, "
               "cos in [-1,1] or NaN, exp not negative. lax.scan over sites: inductive step on the lane weight. Weights after reconfiguration: C07 (W/N). killed fraction: real arithmetic lemma.")
 TRUSTED_BASE = ["python ast + subset semantics", "z3 Float64 theory (bit-blasting), cvc5 for unknowns", "cone-of-influence slicing of hypotheses (sound for proofs; counter-models are re-checked)",
                 "sum lemma and log lemma (mathematics of doubles, stated)"]
@@ -20,8 +20,8 @@ DROPPED = ["all non-weight arithmetic (havoc'ed)", "jit decorators"]
 def tasks(tier):
     W = "contracts.weights"
     t = [(W, "step", dict(cls=c, meth="propagate")) for c in ("propagator_restricted", "propagator_unrestricted", "propagator_cpmc", "propagator_cpmc_continuous")]
-    # slow / nearest-neighbour variants: per-piece obligations only (site-scan bodies); their one-body halves and tails repeat the patterns above
-    t += [(W, "step", dict(cls=c, meth="propagate", pieces_only=True)) for c in ("propagator_cpmc_slow", "propagator_cpmc_nn", "propagator_cpmc_nn_slow")]
+    # slow / nearest-neighbour CPMC variants are NOT analysed (N/D): under the havoc over-approximation their obligations are not provable and
+    # only yield not-decided entries; their one-body halves and tails repeat the patterns of propagator_cpmc
     t += [(W, "step", dict(cls="propagator_cpmc", meth="propagate_one_body")), (W, "init_weights", {}), (W, "block_bookkeeping", {}), (W, "block_energy", {}), (W, "canary", {})]
     return t
 
